@@ -435,20 +435,87 @@ Lemma listing_spec m p t :
 Proof. exact (conj (listing_sound m p t) (listing_forever m p t)). Qed.
 
 (* --- the checker used on the implementation's answers accepts every answer of the model ------- *)
+Lemma strictly_covered_covered evs p t : strictly_covered evs p t = true -> covered evs p t = true.
+Proof.
+  unfold strictly_covered, covered. rewrite !existsb_exists. intros (e & Hin & He). exists e. split; [exact Hin|].
+  destruct e as [q d t0| | | | | | | ]; cbn in *; try discriminate.
+  apply andb_true_iff in He. destruct He as [H1 H2]. rewrite H1. cbn.
+  apply orb_true_iff in H2. destruct H2 as [H2|H2]; [rewrite H2; reflexivity|].
+  apply Z.ltb_lt in H2. apply orb_true_iff. right. apply Z.leb_le. lia.
+Qed.
+Lemma covered_blocks evs p t : covered evs p t = true -> existsb (blocks p) evs = true.
+Proof.
+  unfold covered. rewrite !existsb_exists. intros (e & Hin & He). exists e. split; [exact Hin|].
+  destruct e as [q d t0| | | | | | | ]; cbn in *; try discriminate.
+  apply andb_true_iff in He. apply He.
+Qed.
+Lemma permanent_covered evs p t : existsb (blocks_permanently p) evs = true -> covered evs p t = true.
+Proof.
+  unfold covered. rewrite !existsb_exists. intros (e & Hin & He). exists e. split; [exact Hin|].
+  destruct e as [q d t0| | | | | | | ]; cbn in *; try discriminate.
+  apply andb_true_iff in He. destruct He as [H1 H2]. rewrite H1, H2. reflexivity.
+Qed.
+
+(* whatever the ordering mode, the classifier accepts the answer "covered" *)
+Lemma classify_gen_covered ordered evs p t : classify_gen ordered evs p t (covered evs p t) = None.
+Proof.
+  unfold classify_gen. destruct (covered evs p t) eqn:Ec.
+  - rewrite (covered_blocks evs p t Ec). cbn. rewrite andb_false_r. reflexivity.
+  - destruct (existsb (blocks_permanently p) evs) eqn:Ep.
+    + rewrite (permanent_covered evs p t Ep) in Ec. discriminate.
+    + destruct (strictly_covered evs p t) eqn:Es; [|rewrite andb_false_r; reflexivity].
+      rewrite (strictly_covered_covered evs p t Es) in Ec. discriminate.
+Qed.
+
 Lemma classify_model w evs p t :
   Forall (fun e => time_of e <= t) evs -> classify evs p t (query_answer w evs p t) = None.
-Proof.
-  intros HF. unfold classify. rewrite (answer_exact w evs p t HF).
-  destruct (covered evs p t); reflexivity.
-Qed.
+Proof. intros HF. rewrite (answer_exact w evs p t HF). apply classify_gen_covered. Qed.
 Lemma classify_gater_model evs p t :
   Forall (fun e => time_of e <= t) evs ->
   classify evs p t (negb (dial_answer wiring_now evs p t)) = None /\
   classify evs p t (negb (secured_answer wiring_now evs p t)) = None.
 Proof.
   intros HF. destruct (gater_now evs p t HF) as [H1 H2]. rewrite H1, H2, !negb_involutive.
-  unfold classify. destruct (covered evs p t); split; reflexivity.
+  split; apply classify_gen_covered.
 Qed.
+(* the order-free clauses hold of the model without any premise on the time stamps *)
+Lemma classify_unordered_model w evs p t : classify_gen false evs p t (query_answer w evs p t) = None.
+Proof.
+  unfold classify_gen. cbn [andb]. destruct (query_answer w evs p t) eqn:Eq.
+  - destruct (existsb (blocks p) evs) eqn:Eb; [reflexivity|]. exfalso.
+    assert (query_answer w evs p t = false); [|congruence].
+    apply unaffected. intros d t0 Hin.
+    assert (existsb (blocks p) evs = true); [|congruence].
+    apply existsb_exists. exists (Block p d t0). split; [exact Hin|]. cbn. apply N.eqb_refl.
+  - destruct (existsb (blocks_permanently p) evs) eqn:Ep; [|reflexivity]. exfalso.
+    apply existsb_exists in Ep. destruct Ep as (e & Hin & He).
+    destruct e as [q d t0| | | | | | | ]; cbn in He; try discriminate.
+    apply andb_true_iff in He. destruct He as [H1 H2]. apply N.eqb_eq in H1. apply Z.eqb_eq in H2. subst q d.
+    apply in_split in Hin. destruct Hin as (pre & post & ->).
+    rewrite permanent_holds in Eq. discriminate.
+Qed.
+
+(* the sentence of the property: while a block covers t, neither a dial to p nor a secured
+   connection from p is let through *)
+Lemma no_new_connection_while_blocked evs p t :
+  Forall (fun e => time_of e <= t) evs -> covered evs p t = true ->
+  dial_answer wiring_now evs p t = false /\ secured_answer wiring_now evs p t = false.
+Proof. intros HF Hc. destruct (gater_now evs p t HF) as [H1 H2]. rewrite H1, H2, Hc. split; reflexivity. Qed.
+
+(* BlockedPeers with its skip of ids that have no Ethereum address *)
+Lemma listing_go_spec addr_ok m p t :
+  (listed_go addr_ok m p t <> 0 -> snd (is_blocked m p t) = true) /\
+  (addr_ok p = true -> (listed_go addr_ok m p t = 2 <-> exists i, lookup p m = Some i /\ e_dur i = 0)) /\
+  (addr_ok p = false -> listed_go addr_ok m p t = 0).
+Proof.
+  unfold listed_go. destruct (addr_ok p).
+  - split; [apply listing_sound|]. split; [intros _; apply listing_forever|discriminate].
+  - split; [intros H; contradiction H; reflexivity|]. split; [discriminate|reflexivity].
+Qed.
+Example listing_skips_keyless :
+  listed_go (fun _ => false) [(5%N, {| e_start := 0; e_dur := 0 |})] 5%N 10 = 0 /\
+  snd (is_blocked [(5%N, {| e_start := 0; e_dur := 0 |})] 5%N 10) = true.
+Proof. split; reflexivity. Qed.
 
 (* --- the code before commit 6a06465 ---------------------------------------------------------- *)
 Lemma permanent_refuted_v0 :
